@@ -17,6 +17,42 @@ META = {
 }
 
 
+def run_legacy(stats, rounds_after=1, version=2):
+    """ONE real HostConnectionPool (v1/v2 pool class) holding len(stats) real connections; stats[k] in {'dead','idle','busy'} is the state
+    of connection k at the start of the round ('dead' = closed by a clean server EOF, not yet signalled to the pool).
+    Returns (harnesses, decisions actually taken per listed connection, violations)."""
+    hs = [conn_impl.Harness(n_init=2, max_in_flight=4, thr=2, protocol_version=version) for _ in stats]
+    pool = conn_hb.make_legacy_pool(hs)
+    for k, st in enumerate(stats):
+        if st == 'dead':
+            hs[k].conn.close()
+            hs[k].checkpoint()
+        elif st == 'busy':
+            hs[k].do({'a': 'push_event'})
+    for h in hs:
+        h.traffic_before = h.traffic
+    report = conn_hb.run_rounds(hs, [{'replies': ['supported'] * len(hs)}], holders=[pool])
+    out, decisions = [], []
+    for k, (st, h) in enumerate(zip(stats, hs)):
+        told = len([e for e in h.events if e == [12]])
+        sent = report[0][k]['sent']
+        decisions.append(0 if told else 1 if sent else 2 if h.conn.is_idle and st == 'busy' else -1)
+        where = 'connection %d of the pool (listed after %r)' % (k, stats[:k])
+        if st == 'dead' and not told:
+            out.append(('dead-owner-not-notified.legacy-pool', '%s is closed but its owner was not told' % where))
+        if st == 'idle':
+            if not sent:
+                out.append(('idle-no-heartbeat.legacy-pool', '%s is idle and alive but got NO heartbeat in this round' % where))
+            elif h.conn.is_defunct or h.conn.in_flight != 0:
+                out.append(('capacity-changed.legacy-pool', '%s: successful heartbeat left in_flight=%d defunct=%s' % (where, h.conn.in_flight, h.conn.is_defunct)))
+        if st == 'busy':
+            if sent:
+                out.append(('busy-got-heartbeat.legacy-pool', '%s received traffic but got a heartbeat' % where))
+            if not h.conn.is_idle:
+                out.append(('busy-idle-flag-not-reset.legacy-pool', '%s received traffic; its idle flag was not reset in this round' % where))
+    return hs, decisions, out
+
+
 def run_group(nholders, rounds, T=100):
     """nholders real connections (one real HostConnection owner each) through the REAL run() for len(rounds) rounds; returns
     (harnesses, report, violations) -- the oracle reads only scripted facts (reply kind, arrival instant vs T) and the connections"""
@@ -37,7 +73,11 @@ def run_group(nholders, rounds, T=100):
         told = len([e for e in g.events if e == [12]])
         if dead[k]:
             if not g.conn.is_defunct:
-                out.append(('failed-heartbeat-not-defunct', 'holder %d: heartbeat unanswered / answered after the timeout but the connection is not defunct' % k))
+                out.append(('failed-heartbeat-not-defunct' + ('.reply-during-wait' if g.hb_early_wakes else ''),
+                            'holder %d: its heartbeat failed (replies per round %r, arrival instants %r, T=%d) but the connection is not defunct%s'
+                            % (k, [r['replies'][k] for r in rounds], [(r.get('delays') or [0] * nholders)[k] for r in rounds], T,
+                               ('; schedule: the heartbeat thread was blocked in HeartbeatFuture.wait() when the failing reply came in; it woke up when '
+                               '_event was set and read _exception before the callback had stored it') if g.hb_early_wakes else '')))
             if not told:
                 out.append(('failed-heartbeat.wrong-owner-notified', 'holder %d: its owner was never told about the failed heartbeat' % k))
         else:
@@ -196,15 +236,24 @@ def run(ctx):
              (3, [{'replies': ['supported'] * 3, 'delays': [40, 60, 130]}]),
              (3, [{'replies': ['silent', 'supported', 'supported'], 'raise_in_owner': [0]}, {'replies': ['silent', 'supported', 'supported']}]),
              (3, [{'replies': ['supported', 'error', 'supported'], 'raise_in_owner': [1]}, {'replies': ['supported'] * 3}, {'replies': ['supported'] * 3}]),
-             (2, [{'replies': ['supported', 'supported']}, {'replies': ['supported', 'supported'], 'delays': [10, 70]}])]
+             (2, [{'replies': ['supported', 'supported']}, {'replies': ['supported', 'supported'], 'delays': [10, 70]}]),
+             # a FAILING reply that comes in while the heartbeat thread is already blocked in wait()
+             (3, [{'replies': ['error', 'supported', 'supported'], 'delays': [30, 10, 50]}]),
+             (3, [{'replies': ['supported', 'error', 'error'], 'delays': [20, 40, 0]}]),
+             (1, [{'replies': ['error'], 'delays': [60]}])]
     for _ in range(12 if ctx.tier == 'quick' else 150):
         n = rng.randint(3, 5)
         rs = []
         for _r in range(rng.randint(1, 3)):
-            rs.append({'replies': [rng.choices(['supported', 'silent'], [5, 1])[0] for _k in range(n)],
+            rs.append({'replies': [rng.choices(['supported', 'silent', 'error'], [5, 1, 1])[0] for _k in range(n)],
                        'delays': [rng.choice([0, 5, 20, 35, 45, 60, 75, 90, 99, 120]) for _k in range(n)]})
-            if rng.random() < 0.3:
-                rs[-1]['raise_in_owner'] = [rng.randrange(n)]
+            # an exception from the owner's failure handling aborts the round (run() logs it): script it only where the statement still says
+            # what must hold -- exactly one connection fails in that round, it is still alive at the round's start, and it is the one whose
+            # owner raises (anything else in an aborted round is handled one interval later by the real code)
+            alive = [k for k in range(n) if all(r0['replies'][k] == 'supported' and (r0['delays'][k] or 0) <= T for r0 in rs[:-1])]
+            failing = [k for k in alive if rs[-1]['replies'][k] != 'supported' or rs[-1]['delays'][k] > T]
+            if rng.random() < 0.3 and len(failing) == 1 and len(alive) == n:
+                rs[-1]['raise_in_owner'] = failing
         plans.append((n, rs))
     dl_exprs, dl_meta = [], []
     for n, rs in plans:
@@ -230,6 +279,36 @@ def run(ctx):
             ctx.disagreement('model-vs-impl.wait-phase', 'Model/Heartbeat.v wait_phase differs from run() in round %d of %r' % (dl_meta[i][1], dl_meta[i][0]), case=dl_meta[i][0])
     except RuntimeError as e:
         ctx.proof_broken.append(('correspondence:Heartbeat', str(e)[-600:]))
+    # (c) a REAL HostConnectionPool (v1/v2 pool class, several connections per host) as holder: every connection it listed at the
+    # start of the round is visited, also the one right behind a closed-but-unsignalled connection
+    import itertools as _it
+    lg_exprs, lg_meta = [], []
+    for n in (2, 3, 4):
+        for stats in _it.product(['dead', 'idle', 'busy'], repeat=n):
+            if 'dead' not in stats or (ctx.tier == 'quick' and n == 4 and ctx.rng.random() < 0.7):
+                continue
+            for version in (2, 1):
+                if version == 1 and ctx.rng.random() < 0.7:
+                    continue
+                lhs, decisions, found = run_legacy(stats, version=version)
+                case = {'legacy': list(stats), 'version': version}
+                ctx.case(['legacy', list(stats), version], nontrivial=True, sample={'pool': 'HostConnectionPool', 'protocol': version, 'listed': list(stats), 'decisions': decisions})
+                ctx.count('round', 'legacy-pool-%d' % n)
+                for key, what in found:
+                    ctx.violation(key, what + '; connections listed by the pool at the start of the round: %r (protocol v%d)' % (list(stats), version), case=case,
+                                  kind='history', theorem='C44_every_listed_connection_visited')
+                for g in lhs:
+                    for pr in g.problems:
+                        ctx.disagreement('harness-problem', pr[:300], case=case)
+                    hs.append(('legacy', dict(n_init=2, max_in_flight=4, thr=2, protocol_version=version), [], g))
+                code = {'dead': 'CDead', 'idle': 'CIdle', 'busy': 'CBusy'}
+                lg_exprs.append('zs_eqb (map decision_code (send_phase [%s])) %s' % ('; '.join(code[x] for x in stats), conn_corr.zl(decisions)))
+                lg_meta.append(case)
+    try:
+        for i in ctx.coq_filter(['Heartbeat'], '(fun b : bool => b)', lg_exprs, shard=200)[:5]:
+            ctx.disagreement('model-vs-impl.send-phase', 'Model/Heartbeat.v send_phase differs from run() over a HostConnectionPool for %r' % (lg_meta[i],), case=lg_meta[i])
+    except RuntimeError as e:
+        ctx.proof_broken.append(('correspondence:Heartbeat-send-phase', str(e)[-600:]))
     ctx.exhaustive = False
     ctx.rule = '1-5 heartbeat rounds per connection with random traffic in between and replies supported/error/silent; non-trivial = at least 2 rounds'
     conn_check.compare_with_model(ctx, hs, 'C44')
@@ -241,6 +320,12 @@ def key_is_busy(rp):
 
 def replay(ctx, rp):
     case = rp.get('case') or {}
+    if case.get('legacy'):
+        lhs, decisions, found = run_legacy(tuple(case['legacy']), version=case.get('version', 2))
+        print('listed', case['legacy'], 'decisions (0 owner told, 1 heartbeat, 2 idle flag reset, -1 none)', decisions)
+        print('oracle', found)
+        print(('VIOLATION property=C44 replay=%s' % ctx.replay_path) if found else 'not reproduced')
+        return 1 if found else 0
     if case.get('rounds'):
         group, report, found = run_group(case['group'], case['rounds'], case.get('T', 100))
         for k, g in enumerate(group):
@@ -283,7 +368,9 @@ def replay(ctx, rp):
         print(ops, {k: v for k, v in sn.items() if k != 'events'})
     key = rp.get('key') or ''
     c = h.conn
-    bad = (key.startswith('failed-heartbeat') and not c.is_defunct) or (key == 'capacity-changed') or (key.startswith('busy') or key.startswith('idle') or key.startswith('dead'))
+    ids_in_use = len(h.held) + len(c.__dict__['_requests_real']) + len(c.orphaned_request_ids)
+    bad = ((key.startswith('failed-heartbeat') and not c.is_defunct) or (key == 'capacity-changed' and (c.is_defunct or c.in_flight != ids_in_use))
+           or (key.startswith('busy') or key.startswith('idle') or key.startswith('dead')))
     if key.startswith('failed-heartbeat'):
         print('after the failed heartbeat round: defunct=%s control=%s' % (c.is_defunct, c.is_control_connection))
     print(('VIOLATION property=C44 replay=%s' % ctx.replay_path) if bad else 'not reproduced')
